@@ -119,15 +119,23 @@ def _mk_pp(lib, spans, rules):
 
 
 def _battery(lib, pipeline, docs, pps):
+    """bit-exact fingerprints of a fixed set of predictions and scores (a computation that
+    raises is recorded as such, so that batteries stay comparable)"""
     out = []
     for d in docs:
-        for pair in pipeline.predict_log_proba([d]):
-            out += [float(pair[0]).hex(), float(pair[1]).hex()]
+        try:
+            for pair in pipeline.predict_log_proba([d]):
+                out += [float(pair[0]).hex(), float(pair[1]).hex()]
+        except Exception as e:
+            out += ["raise:" + type(e).__name__] * 2
     sc = lib["nb_scorer"].NaiveBayesScorer(pipeline)
     for txt_len, spans, rules in pps:
-        pp = _mk_pp(lib, spans, rules)
-        out.append(float(sc.score("x" * txt_len, None, pp)).hex())
-        out.append(float(sc.score_final("x" * txt_len, None, pp, pp.prod[-1])).hex())
+        try:
+            pp = _mk_pp(lib, spans, rules)
+            out.append(float(sc.score("x" * txt_len, None, pp)).hex())
+            out.append(float(sc.score_final("x" * txt_len, None, pp, pp.prod[-1])).hex())
+        except Exception as e:
+            out += ["raise:" + type(e).__name__] * 2
     return out
 
 
@@ -197,6 +205,12 @@ def execute(case):
                 pipes[op["p"]] = pl
                 refs[op["p"]] = TextbookNB(X, y, alpha=op.get("alpha", 1.0))
                 obs.append([i, "FIT", len(X)])
+                bad = [x for x in _battery(lib, pl, docs_b, pps_b) if x.startswith("raise:")]
+                if bad:
+                    viol("C16.finite", "prediction-" + bad[0],
+                         "op %d: a prediction / score of the fixed battery raised %s on the "
+                         "freshly fitted model (battery docs up to %d tokens)"
+                         % (i, bad[0][6:], max(len(d) for d in docs_b)))
             elif k == "REFIT":
                 # fit() again on the SAME pipeline object: the model must be that of the new
                 # training set, nothing of the first fit may survive
@@ -462,7 +476,8 @@ def _corpus(rng):
 
 
 def _doc(rng, alphabet):
-    ln = rng.choice([0, 1, 2, 3, 4, 6, 9, 14])
+    # (a few very long, possibly very one-sided documents: |log-odds| in the hundreds)
+    ln = rng.choice([0, 1, 2, 3, 4, 6, 9, 14, 14, 60, 150])
     pool = alphabet + ["unseen%d" % i for i in range(2)]
     return [rng.choice(pool if rng.random() < 0.35 else alphabet) for _ in range(ln)]
 
